@@ -203,6 +203,7 @@ func (aux *Aux) buildCacheMeth(args slip.List) *slip.Method {
 	}
 	meth.Name = aux.docs.Name
 	meth.Doc = aux.docs
+	meth.NextPrimary = true
 
 	return &meth
 }
